@@ -28,7 +28,9 @@ Pstutter(p, n) == [t |-> "stut", p |-> p, n |-> n]
 Pclump(p, n) == [t |-> "clump", p |-> p, n |-> n]
 Pflatten(p, n) == [t |-> "flat", p |-> p, n |-> n]
 Pdiff(p) == [t |-> "diff", p |-> p]
-Pconst(p, k) == [t |-> "const", p |-> p, k |-> k]
+Pconst(p, k) == [t |-> "const", p |-> p, k |-> k, tl |-> 0]
+PconstT(p, k, tl) == [t |-> "const", p |-> p, k |-> k, tl |-> tl]
+Sc(q, p) == [t |-> "sc", q |-> q, p |-> p]
 Pswitch(l, a) == [t |-> "switch", l |-> l, a |-> a]
 Pswitch1(l, a) == [t |-> "switch1", l |-> l, a |-> a]
 Ptuple(l, r) == [t |-> "tuple", l |-> l, r |-> r]
@@ -127,11 +129,20 @@ SeededCtx == Seeded \cup {Pseq(<<s, I(1), s>>, 1, 0) : s \in Seeded} \cup {Plen(
 
 Mid1 == Level(Items0, BaseLists, PlaceLists, FALSE)      \* every leaf / list, lean parameters
 Tiny3 == {Pseq(<<I(1), I(2), I(3)>>, 2, 1), Plen(Up, 3), Pclump(Pseq(<<I(1), I(2), I(3)>>, 1, 0), I(2))}
+\* Pconst with explicit tolerances: running sums below the sum minus the tolerance, in the lower and in the upper half
+\* of the last tolerance step, exactly on a step, on the sum and beyond it; sums aligned and not aligned with the
+\* tolerance grid; on the integers and (Sc) on the dyadic lattice 1/8 (floating-point branch of the rounding)
+ConstLists == {<<I(a), I(b), I(c)>> : a \in {3, 8, 13}, b \in {3, 8, 13}, c \in {3, 8, 13}}
+ConstTolInt == {PconstT(Pseq(l, 1, 0), s, tl) : l \in ConstLists, s \in {21, 22, 24}, tl \in {0, 1, 2, 4, 8}}
+               \cup {PconstT(Pseq(<<I(3), I(8)>>, INF, 0), s, tl) : s \in {40, 45}, tl \in {2, 4, 8}}
+               \cup {PconstT(Up, s, tl) : s \in {9, 10}, tl \in {0, 2, 4}}
+ConstTol == ConstTolInt \cup {Sc(8, p) : p \in ConstTolInt} \cup {Sc(64, Pdrop(p, 1)) : p \in ConstTolInt}
 Defd(X) == {p \in X : D(p, NV).ok}
 Exprs == CASE Mode = "d1" -> Defd(Depth1)
-           [] Mode = "quick" -> Defd(Depth1 \cup Depth2(Defd(Core1)) \cup Seeded)
-           [] Mode = "thorough" -> Defd(Depth1 \cup Depth2(Defd(Mid1)) \cup SeededCtx \cup Depth2(Defd(Depth2(Tiny3))))
+           [] Mode = "quick" -> Defd(Depth1 \cup Depth2(Defd(Core1)) \cup Seeded \cup ConstTol)
+           [] Mode = "thorough" -> Defd(Depth1 \cup Depth2(Defd(Mid1)) \cup SeededCtx \cup Depth2(Defd(Depth2(Tiny3))) \cup ConstTol)
            [] Mode = "d3" -> Defd(Depth2(Defd(Depth2(Tiny1))))
+           [] Mode = "consttol" -> Defd(ConstTol)
            [] Mode = "tiny" -> Defd(Tiny1 \cup {Pseed(I(3), Prand(<<I(5), I(6), I(7)>>, 2), Tape3)})
            [] Mode = "streams" -> Defd(Core1 \cup {Pseed(I(3), Prand(<<I(5), I(6), I(7)>>, 2), Tape3)})
 
@@ -147,6 +158,12 @@ LawSplit(p) == \A k \in {2} : LET a == D(Plen(p, k), NV) b == D(Pdrop(p, k), NV)
 LawStutter1(p) == Eq(Pstutter(p, I(1)), DenN(p))
 LawClumpFlatten(p) == \A n \in {2} : Eq(Pflatten(Pclump(p, I(n)), I(1)), DenN(p))
 LawConstSum(p) == LET d == D(Pconst(p, 5), NV) IN (Len(d.s) < NV /\ d.ok) => SumTo(d.s, Len(d.s)) = 5
+\* whatever the tolerance: a Pconst that ends sums to its constant, is never longer than with the finest tolerance,
+\* and agrees with it up to its last value
+LawConstTol(p) == \A tl \in {2, 4} : LET d == D(PconstT(p, 9, tl), NV) e == D(PconstT(p, 9, 0), NV) IN
+    (d.ok /\ e.ok /\ Len(d.s) < NV) => /\ SumTo(d.s, Len(d.s)) = 9
+                                        /\ (Len(e.s) < NV => Len(d.s) <= Len(e.s))
+                                        /\ Take(d.s, Len(d.s) - 1) = Take(e.s, Len(d.s) - 1)
 LawTuple1(p) == LET d == D(Ptuple(<<p>>, 1), NV) IN
     d.ok => Len(d.s) = Len(DenN(p)) /\ \A i \in 1..Len(d.s) : d.s[i] = MkTuple(<<DenN(p)[i]>>)
 LawShortest(p) ==
@@ -155,7 +172,7 @@ LawShortest(p) ==
     /\ Eq(Pbinop("add", p, I(0)), DenN(p))
     /\ Eq(Pbinop("sub", I(0), Punop("neg", p)), DenN(p))
 Laws(p) == /\ LawPrefix(p) /\ LawSeq1(p) /\ LawPn2(p) /\ LawLenPrefix(p) /\ LawSplit(p) /\ LawStutter1(p)
-           /\ LawClumpFlatten(p) /\ LawConstSum(p) /\ LawTuple1(p) /\ LawShortest(p)
+           /\ LawClumpFlatten(p) /\ LawConstSum(p) /\ LawConstTol(p) /\ LawTuple1(p) /\ LawShortest(p)
 
 (* ---- stream machine ---- *)
 VARIABLES p, picked, todo, pos, hist, ret, fin
